@@ -99,6 +99,8 @@ def cases(tier, seed):
         for mask in range(64):
             yield "colmap", dict(fmt=fmt, mask=mask)
         yield "colmap_prefix", dict(fmt=fmt)
+    for strength in (1.0, 5.0, 20.0):
+        yield "sip", dict(strength=strength)
     for k in range(len(WIDE)):
         for abp in ([(4.0, 3.0, 0.0), (6.0, 5.0, 40.0)] if q else [(4.0, 3.0, 0.0), (6.0, 5.0, 40.0), (4.0, 4.0, 0.0), (8.0, 3.0, -70.0)]):
             yield "wide", dict(k=k, abp=list(abp))
@@ -828,6 +830,47 @@ def ev_wide(case, ctx):
     ctx.outcome("wide:%s" % ("ok" if ok else "bad"))
 
 
+def ev_sip(case, ctx):
+    """a header with SIP distortion polynomials: each source's model must sit where astropy's full (distortion-aware) transform
+    puts its catalogued sky position - centroid of the single-source model within 0.02 pixel"""
+    from astropy.wcs import WCS
+    from AegeanTools import AeRes
+    from AegeanTools.wcs_helpers import WCSHelper
+    shape = (120, 140)
+    cd = CD
+    k = case["strength"]
+    hdr = wz.make_header("TAN", (150.0 + core.seed_shift(ctx.seed, 33, 10.0), -35.0), cd, shape, beam=(BEAM_PX[0] * cd, BEAM_PX[1] * cd, BEAM_PX[2]))
+    hdr["CTYPE1"], hdr["CTYPE2"] = "RA---TAN-SIP", "DEC--TAN-SIP"
+    hdr.update(A_ORDER=2, B_ORDER=2, A_2_0=2e-5 * k, A_0_2=-1e-5 * k, A_1_1=1.5e-5 * k, B_2_0=-1.2e-5 * k, B_0_2=2.5e-5 * k, B_1_1=-0.8e-5 * k)
+    fh = wz.to_fits_header(hdr)
+    w = WCS(fh, naxis=2)
+    wh = WCSHelper.from_header(fh)
+    sig0 = "sip:strength=%g" % k
+    for j, (r, c) in enumerate([(20.3, 25.1), (100.2, 30.7), (60.5, 70.2), (25.9, 120.4), (105.6, 125.3), (60.0, 8.0)]):
+        ctx.count("sip")
+        sig = "%s,pix=(%g,%g)" % (sig0, r, c)
+        ctx.nontrivial(sig)
+        ra, dec = w.all_pix2world([[c, r]], 0)[0]
+        src = dict(ra=float(ra), dec=float(dec), peak=1.0, a=5.0 * cd, b=4.0 * cd, pa=30.0, pos="sip%d" % j)
+        try:
+            m = np.asarray(AeRes.make_model([component(src, j)], shape, wh), dtype=np.float64)
+        except Exception as e:
+            ctx.violation("make_model raised %r on a SIP header (%s)" % (e, sig), "raise|" + sig)
+            continue
+        tot = m.sum()
+        if not tot > 0:
+            ctx.violation("source at pixel (%g, %g) of a SIP image is absent from the model (%s)" % (r, c, sig), "sip_dropped|" + sig)
+            continue
+        ii, jj = np.mgrid[0:shape[0], 0:shape[1]]
+        cr, cc = float((m * ii).sum() / tot), float((m * jj).sum() / tot)
+        err = float(np.hypot(cr - r, cc - c))
+        ctx.note_max("sip_centroid_err_px", err)
+        if not err <= 0.02:
+            ctx.violation("SIP header: the model of a source catalogued at the sky position of pixel (row %.2f, col %.2f) is centred on (%.3f, %.3f): %.3f pixel off (%s)" % (
+                r, c, cr, cc, err, sig), "sip_position|" + sig)
+    ctx.outcome("sip")
+
+
 CLI_FLAG = dict(ra="--racol", dec="--deccol", peak_flux="--peakcol", a="--acol", b="--bcol", pa="--pacol")
 CLI_MODES = [["sub"], ["add"], ["mask"], ["mask", "sigma", 10.0], ["mask", "sigma", 25.0], ["mask", "frac", 0.5], ["mask", "frac", 0.9],
              ["frac_only", 0.5], ["add", "mask", "frac", 0.5]]
@@ -913,7 +956,7 @@ def ev_cli(case, ctx):
 
 
 CLAUSES = dict(single=ev_single, cat=ev_cat, loop=ev_loop, addsub=ev_addsub, mask=ev_mask, colmap=ev_colmap,
-               colmap_prefix=ev_colmap_prefix, cli=ev_cli, wide=ev_wide)
+               colmap_prefix=ev_colmap_prefix, cli=ev_cli, wide=ev_wide, sip=ev_sip)
 
 
 def evaluate(clause, case, ctx):
